@@ -24,7 +24,8 @@ RULE = ("KMeans::fit + predict on every 1-D data set of 2..5 rows over {0..4} (k
         "the seeding is unseeded) and on seeded random data sets of 2..120 (thorough: ..300) rows, 1..6 "
         "dimensions: lattice, integer blobs, few distinct rows replicated, continuous uniform / blobs, "
         "single precision; k in 2..8 with at least k distinct rows, max_iter in {1,2,3,5,10,30,100}, R "
-        "repeated fits per data set; a predict batch-size ladder (one call on 63..1300 / ..4097 rows, inherent and api-trait "
+        "repeated fits per data set; outlier families (one isolated row 2^27..2^40 (f64) / 2^13..2^20 (f32) away, stored first, "
+        "last or duplicated, k 3..5, repeated fits); a predict batch-size ladder (one call on 63..1300 / ..4097 rows, inherent and api-trait "
         "entry points); geometric-coordinate families (column 0 = 2^e over 66..110 binary orders of magnitude: BBD tree as "
         "deep as the data are long) for fit and for the filtering step; offset families (small lattice rows + a common offset of ~1e9 / 2^30 per "
         "column, results shifted back); the data sets for which Lloyd.tla reaches an empty cluster, refitted "
@@ -38,7 +39,7 @@ RULE = ("KMeans::fit + predict on every 1-D data set of 2..5 rows over {0..4} (k
         "cluster, or coincident centroids; distinct = distinct inputs (data, k, max_iter / data, centroids)")
 
 FIT_HITS = ("KMFit", "FitLattice", "FitCont", "FitF32", "Means", "PredictFx", "PredictExact", "PredictTie", "FitModel",
-            "FitOffset", "FitOffsetExact", "EmptyCluster", "ProbeEmpty", "FitSwap", "FitComp", "PredictBackend", "FitGeo", "PredictLadder", "TraitEntry")
+            "FitOffset", "FitOffsetExact", "EmptyCluster", "ProbeEmpty", "FitSwap", "FitComp", "PredictBackend", "FitGeo", "PredictLadder", "TraitEntry", "FitOutlier", "FitOutlierF32")
 BBD_HITS = ("Bbd", "BbdTie", "BbdCoincident", "BbdEmpty", "BbdRational", "BbdModel", "BbdOffset", "BbdGeo")
 
 
@@ -197,6 +198,7 @@ def run(ctx):
         "offset families are double precision only (a single-precision centroid at offset 2^12 is not known to 2^-12); "
         "the distortion of the filtering step at offset ~1e9 is checked to 2^-2 only",
         "k-means++ draw with cutoff exactly 0 (probability 2^-53) is not modelled",
+        "predict is not decided on the outlier families (per-column power-of-two scaling of the record)",
     ]
     fits = [e for e in events if e["ev"] == "KMFit" and e["status"] == "ok"]
     samples = [x for x in fits if x["cls"] == "small1d"][:1]
